@@ -10,11 +10,11 @@ open Nrf
     register are untouched, and the returned status byte is the one from before the command -/
 theorem C10_flush_rx (r : Radio) :
     (r.xfer [0xE2]).1 = { r with rxFifo := [] } ∧ (r.xfer [0xE2]).2 = [r.status] := by
-  simp [Radio.xfer, zeros]
+  simp [Radio.xfer, Radio.runCmd, Radio.decodeCmd, zeros]
 
 /-- FLUSH_TX likewise -/
 theorem C10_flush_tx (r : Radio) :
     (r.xfer [0xE1]).1 = { r with txFifo := [] } ∧ (r.xfer [0xE1]).2 = [r.status] := by
-  simp [Radio.xfer, zeros]
+  simp [Radio.xfer, Radio.runCmd, Radio.decodeCmd, zeros]
 
 end Nrf.Props.C10
